@@ -5,10 +5,10 @@ hand-written corpus: translation validation of the compiler's output (contracts/
 against the direct interpreter (replay/dsl_battery.py).
 
 Shape of a generated program (what keeps it well founded and inside the documented discipline of the sentinels):
-  inputs  "A" (vanishes at zeroth order) and "B" (used only as `start = "B_0"` and under .adj / sums, never in a product);
+  inputs  "A" (vanishes at zeroth order) and "B0" (used only as `start = "B0_0"` and under .adj / sums, never in a product; the name ends in a digit on purpose);
   series  S0 .. S{k-1}; Si may read Sj directly only for j < i (acyclic at equal order) and any series through a declared product,
           whose factors all vanish at zeroth order (start = 0 or start-less series built from "A"), so products reach strictly lower orders;
-  start   0 | "B_0" (only for series that are no product factor) | none (only for series that read nothing but inputs);  `start = 1` is not generated
+  start   0 | "B0_0" (only for series that are no product factor) | none (only for series that read nothing but inputs);  `start = 1` is not generated
           (the `one` sentinel may only meet products; covered by the hand-written corpus and the shipped algorithms);
   marker  none | hermitian | antihermitian at a random position;  clauses: 1-3 with condition none | diagonal | offdiagonal, optionally a final `lower` clause;
   flag expressions `zero if two_block_optimized else e`, `e if commuting_blocks[index[0]] else e` at the top of a clause;
@@ -71,18 +71,18 @@ def program_source(seed, k):
     in_product = {f for p in products for f in p.split(" @ ")}
     lines = [f"def gen_{k}():"]
     for i, nm in enumerate(names):
-        leaves = ["A", "A", "zero"] + names[:i] + products + (["B"] if nm not in in_product or True else [])
-        leaves = [l for l in leaves if l != "B"] + (["B"] if rnd.random() < 0.4 else [])
+        leaves = ["A", "A", "zero"] + names[:i] + products + (["B0"] if nm not in in_product or True else [])
+        leaves = [l for l in leaves if l != "B0"] + (["B0"] if rnd.random() < 0.4 else [])
         reads_only_inputs = i == 0 and not products
         if nm not in in_product and rnd.random() < 0.25:
-            start = '"B_0"'
+            start = '"B0_0"'
         elif reads_only_inputs and nm not in in_product and rnd.random() < 0.3:
             start = None
         else:
             start = "0"
-        # a start-less series and a series reading "B" must not be a product factor (zeroth order would not vanish)
+        # a start-less series and a series reading "B0" must not be a product factor (zeroth order would not vanish)
         if nm in in_product:
-            leaves = [l for l in leaves if l != "B"]
+            leaves = [l for l in leaves if l != "B0"]
         body = []
         if start is not None:
             body.append(f"start = {start}")
